@@ -186,7 +186,7 @@ def check_props(prop_id):
 # --------------------------------------------------------------------------
 # driver
 
-def run_driver(jobs, deny=(), uid=None, tag="job", timeout=900, extra_args=()):
+def run_driver(jobs, deny=(), uid=None, tag="job", timeout=300, extra_args=()):
     os.makedirs(RUN, exist_ok=True)
     jf = os.path.join(RUN, f"{tag}.{os.getpid()}.jobs.jsonl")
     of = os.path.join(RUN, f"{tag}.{os.getpid()}.out.jsonl")
@@ -200,7 +200,10 @@ def run_driver(jobs, deny=(), uid=None, tag="job", timeout=900, extra_args=()):
         cmd += ["--uid", str(uid)]
     cmd += list(extra_args)
     cmd += [jf, of]
-    rc, out = sh(cmd, timeout=timeout)
+    try:
+        rc, out = sh(cmd, timeout=timeout)
+    except subprocess.TimeoutExpired:
+        rc, out = 124, "driver timed out after %d s" % timeout
     results = []
     if os.path.exists(of):
         with open(of) as f:
@@ -219,7 +222,7 @@ def run_driver(jobs, deny=(), uid=None, tag="job", timeout=900, extra_args=()):
     return rc, out, results
 
 
-def run_driver_parallel(jobs, deny=(), uid=None, tag="job", shards=None, timeout=900):
+def run_driver_parallel(jobs, deny=(), uid=None, tag="job", shards=None, timeout=300):
     """Split jobs over several driver processes. Returns (warmups, results-by-id)."""
     shards = shards or min(NCPU, max(1, len(jobs) // 8))
     chunks = [jobs[i::shards] for i in range(shards)]
